@@ -25,6 +25,9 @@ func init() {
 		Workloads: []core.Workload{
 			{Name: "grid", Variant: "plain", N: func(t string) int { return len(c20Elev) * c20Blocks(t) }, Run: c20Grid},
 			{Name: "random", Variant: "plain", N: core.Tiered(50, 2000), Run: c20Random},
+			// decades of hourly / daily steps in ONE call, of every odd length: a run that is cut into blocks, batches or
+			// vector chunks internally must still compute its last few steps
+			{Name: "long", Variant: "plain", N: core.Tiered(40, 1500), Run: c20Long, TimeoutS: 600},
 		},
 	})
 }
@@ -181,4 +184,38 @@ func c20Random(c *core.Ctx) {
 			c.Violate("vp-not-increasing", "ClimateVariables", fmt.Sprintf("vaporPressure(%v)=%v is not above vaporPressure(%v)=%v", t+e, o2.Out[0][0][1], t, o2.Out[0][0][0]))
 		}
 	}
+}
+
+func c20Long(c *core.Ctx) {
+	n := c.R.IntRange(16000, 70000)
+	if c.R.Bool(0.3) {
+		n = []int{16384, 32768, 65536}[c.R.Intn(3)] + c.R.IntRange(-3, 40)
+	}
+	elev := c.R.Range(0, 10000)
+	seed := c.R.Uint64()
+	c.Begin(map[string]interface{}{"model": "ClimateVariables", "elevation": elev, "steps": n, "series_seed": seed, "note": "dryBulb/humidity are regenerated from series_seed"})
+	c.Class(fmt.Sprintf("long/%d", n/10000))
+	r := core.NewRand(seed)
+	dry := make([]float64, n)
+	hum := make([]float64, n)
+	t, h := r.Range(-40, 55), r.Range(1, 100)
+	for i := range dry {
+		t = math.Max(-40, math.Min(55, t+r.Range(-3, 3)))
+		h = math.Max(0.05, math.Min(100, h+r.Range(-10, 10)))
+		dry[i], hum[i] = t, h
+	}
+	out, err := runClimate(elev, dry, hum)
+	if err != nil {
+		c.Violate("prepare", "ClimateVariables", err.Error())
+		return
+	}
+	o := out.Out[0]
+	for k := range dry {
+		checkPoint(c, elev, dry[k], hum[k], o[0][k], o[1][k], o[2][k], o[3][k])
+		if len(c.Res.Violations) > 0 {
+			return
+		}
+	}
+	c.Count("steps_in_long_runs", float64(n))
+	c.Tag("long-run")
 }
